@@ -233,7 +233,8 @@ def outcome_env(outcome):
 
 def _spec_env(contract: Contract):
     env = I.Env()
-    globs = {}
+    from . import specprims
+    globs = {k: v for k, v in vars(specprims).items() if not k.startswith('_') and callable(v)}
     for f in contract.specs:
         node = spec_ast(f)
         globs.update(f.__globals__)
@@ -634,11 +635,15 @@ def to_term_assignment(v: Val, value):
 
 
 def values_agree(sym: Val, native) -> bool | None:
-    import math
-    import decimal
-    c = sym.conc if not isinstance(sym, (VPyList, VTuple)) else sym.conc
+    c = sym.conc
     if c is NOTCONC:
         return None
+    return _py_agree(c, native)
+
+
+def _py_agree(c, native) -> bool:
+    import math
+    import decimal
     if isinstance(native, float) and isinstance(c, float):
         if math.isnan(native) or math.isnan(c):
             return math.isnan(native) and math.isnan(c)
@@ -647,8 +652,8 @@ def values_agree(sym: Val, native) -> bool | None:
         return False
     if isinstance(native, (int, decimal.Decimal)) and isinstance(c, (int, decimal.Decimal)):
         return native == c and isinstance(native, int) == isinstance(c, int)
-    if isinstance(native, list) and isinstance(c, (list, tuple)):
-        return len(native) == len(c) and all(a == b for a, b in zip(native, c))
+    if isinstance(native, (list, tuple)) and isinstance(c, (list, tuple)):
+        return len(native) == len(c) and all(_py_agree(a, b) for a, b in zip(c, native))
     return native == c
 
 
@@ -769,7 +774,8 @@ def native_post(contract: Contract, inputs: dict, label: str, extra: dict | None
     """Run the real code on concrete inputs and evaluate postcondition `label` natively.
     Returns (holds: bool, outcome)."""
     nat = contract.native(inputs)
-    env = {}
+    from . import specprims
+    env = {k: v for k, v in vars(specprims).items() if not k.startswith('_') and callable(v)}
     for f in contract.specs:
         env[f.__name__] = f
         env.update({k: v for k, v in f.__globals__.items() if not k.startswith('__')})
